@@ -438,9 +438,9 @@ impl C18 {
             t
         });
         let corridor = match kind {
-            4 => Some(gen_dispatch_case(g, 2, &CorridorOpts { max_stages: 6, p_branch: 0.3, ..Default::default() })),
+            4 => Some(gen_dispatch_case(g, 2, &CorridorOpts { max_stages: 6, p_branch: 0.3, p_bypass: 0.2, ..Default::default() })),
             5 => {
-                let mut c = gen_dispatch_case(g, 6, &CorridorOpts { max_stages: 6, p_lockout: 0.2, p_branch: 0.3, ..Default::default() });
+                let mut c = gen_dispatch_case(g, 6, &CorridorOpts { max_stages: 6, p_lockout: 0.2, p_branch: 0.3, p_bypass: 0.2, ..Default::default() });
                 while c.trains.len() < 3 {
                     let t = c.trains[0].clone();
                     c.trains.push(CorrTrain { east: !t.east, branch: t.branch, train: t.train, from: None, to: None });
